@@ -4,6 +4,9 @@ import (
 	"sort"
 
 	disttypes "github.com/chain4energy/c4e-chain/x/cfedistributor/types"
+	mintertypes "github.com/chain4energy/c4e-chain/x/cfeminter/types"
+	vestingtypes "github.com/chain4energy/c4e-chain/x/cfevesting/types"
+	"github.com/cosmos/cosmos-sdk/codec"
 	sdk "github.com/cosmos/cosmos-sdk/types"
 	authtypes "github.com/cosmos/cosmos-sdk/x/auth/types"
 	banktypes "github.com/cosmos/cosmos-sdk/x/bank/types"
@@ -140,4 +143,30 @@ func (c *Chain) SafeLockedCoins(addr sdk.AccAddress) (coins sdk.Coins, ok bool) 
 		}
 	}()
 	return c.App.BankKeeper.LockedCoins(c.Ctx(), addr), true
+}
+
+// Stored parameters, decoded from the module's own store (not through the keeper: what counts as "the stored
+// configuration" is what a restarted node would read, and an oracle must not share a keeper-side cache with the code
+// it judges).
+func (c *Chain) storedParams(storeKey string, key []byte, into codec.ProtoMarshaler) {
+	bz := c.Ctx().KVStore(c.App.GetKey(storeKey)).Get(key)
+	if bz == nil {
+		return
+	}
+	Enc().Marshaler.MustUnmarshal(bz, into)
+}
+
+func (c *Chain) MinterParams() (p mintertypes.Params) {
+	c.storedParams(mintertypes.StoreKey, mintertypes.ParamsKey, &p)
+	return
+}
+
+func (c *Chain) DistParams() (p disttypes.Params) {
+	c.storedParams(disttypes.StoreKey, disttypes.ParamsKey, &p)
+	return
+}
+
+func (c *Chain) VestingParams() (p vestingtypes.Params) {
+	c.storedParams(vestingtypes.StoreKey, vestingtypes.ParamsKey, &p)
+	return
 }
